@@ -80,8 +80,18 @@ pub fn sign(payload: &J, key: &str) -> String {
 
 /// Sign a payload given as JSON TEXT (to control number spellings such as 9.0e9).
 pub fn sign_raw(payload_text: &str, key: &str) -> String {
+    sign_raw_typ(payload_text, key, Some("JWT"))
+}
+
+/// Like sign_raw, with the protected header's `typ` chosen by the caller (None = no typ member).
+pub fn sign_raw_typ(payload_text: &str, key: &str, typ: Option<&str>) -> String {
     let alg = Algorithm::from_str(keys::alg_of(key)).unwrap();
-    let header = crate::util::b64e(format!("{{\"typ\":\"JWT\",\"alg\":\"{}\"}}", keys::alg_of(key)).as_bytes());
+    let mut h = Map::new();
+    if let Some(t) = typ {
+        h.insert("typ".into(), json!(t));
+    }
+    h.insert("alg".into(), json!(keys::alg_of(key)));
+    let header = crate::util::b64e(jstr(&J::Object(h)).as_bytes());
     let message = format!("{header}.{}", crate::util::b64e(payload_text.as_bytes()));
     let sig = jsonwebtoken::crypto::sign(message.as_bytes(), &keys::issuer_enc(key), alg).expect("sign");
     format!("{message}.{sig}")
